@@ -211,6 +211,25 @@ def c10(fails, stats, tier):
         per = run([own])
         if per[0] != (0, 0):
             fails.append({'check': 'A-own-source-acted-on', 'case': {'scenario': 'own-source', 'dest': dest}, 'got': per})
+    # a late repeat: the identity is remembered however many other bundles were seen in between
+    n_between = 1200 if tier == 'quick' else 6000
+    stats['evaluations'] += 1
+    case = {'scenario': 'late-repeat', 'other_bundles_in_between': n_between}
+    ag, sent, fin = new_agent(routes)
+    x = mk(dest='dtn://d/x', seq=1, flags=REQ['receive'])
+    try:
+        feed(ag, x)
+        for i in range(n_between):
+            ag.recv_bundle(BundleContainer(Bundle(mk(dest='dtn://d/x', seq=100 + i, flags=0, report_to='dtn:none', crc=(0, 0, 0), plen=1))))
+            if i % 50 == 0:
+                GLib.pump_idle(400)
+        GLib.pump_idle(400)
+        n0, f0 = len(sent), len(fin)
+        feed(ag, x)
+        if (len(sent) - n0, len(fin) - f0) != (0, 0):
+            fails.append({'check': 'A-late-repeat-acted-on', 'case': case, 'got': [len(sent) - n0, len(fin) - f0]})
+    except Exception as e:  # noqa
+        fails.append({'check': 'A-exception', 'case': case, 'got': '%s: %s' % (type(e).__name__, e)})
     # first-match routing
     tables = [
         [(r'dtn://a/.*', 'delete'), (r'dtn://a/b.*', 'forward'), (r'.*', 'forward')],
